@@ -311,7 +311,40 @@ def run_zoneless(gen):
     return n, None
 
 
+def run_two_clients(gen):
+    """Two clients of the same generation in one process, each with its own console and installation: what one of
+    them is told never shows in the other (the model belongs to the object, not to the class or the module)."""
+    wa = world(gen)
+    instb = console.default_installation(gen, 1, (3,))
+    wb = apiworld.ApiWorld(gen, instb, auto=True)
+    r = wb.init_now(0.0)
+    if not (r and r[1] is True):
+        return 1, (f"at{gen}:two-clients:init", f"at{gen}: second client in the same process: init() -> {r}")
+    wb.loop.settle()
+    n = 0
+    m = menu(gen)
+    for k in range(2 * len(m)):
+        w, other, tag = (wa, wb, "A") if k % 2 == 0 else (wb, wa, "B")
+        name, fn = m[(k // 2) % len(m)]
+        if name in ("reinit", "unknown-ids") or (w is wb and name in ("ac1-B", "both-acs", "timer", "ac1-timer-flag", "zone2-B")):
+            continue
+        try:
+            frames = fn(w)
+        except KeyError:
+            continue               # an entity the smaller installation does not have
+        for fr in frames:
+            push(w, fr)
+        n += 1
+        for x, t in ((w, tag), (other, "the other client")):
+            msg = check_view(x, f"at{gen} two clients side by side, frame {name} sent to client {tag}: view of {t}")
+            if msg:
+                return n, (f"at{gen}:two-clients:{name}", msg)
+    return n, None
+
+
 def replay_input(rp):
+    if rp["what"] == "two-clients":
+        return (run_two_clients(rp["gen"])[1] or (None, None))[1]
     if rp["what"] == "zoneless":
         return (run_zoneless(rp["gen"])[1] or (None, None))[1]
     if rp["what"] == "mode-walk":
@@ -351,6 +384,11 @@ def run(tier, seed, part=None):
             outcomes.add(snap if isinstance(snap, str) else "violation")
             if sig:
                 chk.violation(sig, msg, {"kind": "input", "module": "pvmc.props.c10", "what": "history", "gen": gen, "seq": list(s), "batch": bool(mode)})
+        nt, viol = run_two_clients(gen)
+        total += nt
+        chk.parts.append({"scenario": f"at{gen}/two-clients-side-by-side", "frames": nt})
+        if viol:
+            chk.violation(viol[0], viol[1], {"kind": "input", "module": "pvmc.props.c10", "what": "two-clients", "gen": gen})
         nz, viol = run_zoneless(gen)
         total += nz
         chk.parts.append({"scenario": f"at{gen}/zone-less-ac", "frames": nz})
